@@ -394,7 +394,8 @@ func (cw *chunkWriter) writeHeader(p []byte) {
 
 	if w.req.Method == "HEAD" || code == bfe_http.StatusNotModified {
 		// do nothing
-	} else if code == bfe_http.StatusNoContent {
+	} else if !bodyAllowedForStatus(code) {
+		// Response has no body (1xx, 204).
 		delHeader("Transfer-Encoding")
 	} else if hasCL {
 		delHeader("Transfer-Encoding")
@@ -406,6 +407,10 @@ func (cw *chunkWriter) writeHeader(p []byte) {
 		// use case.
 		cw.chunking = true
 		setHeader.transferEncoding = "chunked"
+		if hasTE && te == "chunked" {
+			// We will send the chunked Transfer-Encoding header ourselves.
+			delHeader("Transfer-Encoding")
+		}
 	} else {
 		// HTTP version < 1.1: cannot do chunked transfer
 		// encoding and we don't know the Content-Length so
